@@ -33,6 +33,32 @@ def find_poll(cx, pr, tk):
     return None
 
 
+
+def expanded_calls(cx, mod, stmts, depth=3, _seen=None):
+    """the Call nodes of a statement list in source order, with calls of the module's own plain functions followed by the calls
+    of their bodies (helpers extracted from a handler or a guarded region still count)"""
+    out = []
+    seen = _seen or set()
+
+    class V(ast.NodeVisitor):
+        def visit_Call(self, n):
+            self.generic_visit(n)
+            out.append(n)
+            if isinstance(n.func, ast.Name) and depth > 0 and n.func.id not in seen:
+                hf = cx.fn(mod, n.func.id, required=False)
+                if hf is not None:
+                    out.extend(expanded_calls(cx, mod, hf.body, depth - 1, seen | {n.func.id}))
+
+        def visit_FunctionDef(self, n):
+            return
+
+        def visit_Lambda(self, n):
+            return
+    v = V()
+    for st in stmts:
+        v.visit(st)
+    return out
+
 def check_tokenizer_read(cx, pr, rep, tk, poll):
     # ---------------------------------------------------------------- T1 read(): the poll dominates the read
     rd = cx.model.find_method(MOD, tk, 'read')
@@ -168,20 +194,16 @@ def check(repo, rep):
     rep.ob('main() has a handler for KeyboardInterrupt', len(handlers) >= 1, cx.where('cmdline', mfn), 'cmdline.main:no-interrupt-handler')
     for tr_, h, names in handlers:
         rep.ob('the handler covers both Ctrl-C and the normal end of processing', 'EndOfProcessing' in names, cx.where('cmdline', h), 'cmdline.main:handler-types', 'handles %s' % names)
-        calls = [n for n in ast.walk(h) if isinstance(n, ast.Call) and isinstance(n.func, ast.Attribute) and n.func.attr == 'stop_all']
+        hcalls = expanded_calls(cx, 'cmdline', h.body)
+        calls = [n for n in hcalls if isinstance(n.func, ast.Attribute) and n.func.attr == 'stop_all']
         rep.ob('the interrupt handler calls stop_all() on the tokenizer worker', len(calls) >= 1, cx.where('cmdline', h), 'cmdline.main:handler-stop_all')
-        body_calls = [ast.unparse(n.func) for st_ in tr_.body for n in ast.walk(st_) if isinstance(n, ast.Call)]
-        # calls made by module-level helpers invoked from the guarded region count as well
-        for name in list(body_calls):
-            hf = cx.fn('cmdline', name, required=False) if name.isidentifier() else None
-            if hf is not None:
-                body_calls += [ast.unparse(n.func) for n in ast.walk(hf) if isinstance(n, ast.Call)]
+        body_calls = [ast.unparse(n.func) for n in expanded_calls(cx, 'cmdline', tr_.body)]
         rep.ob('the guarded region covers start_all() and the wait loop', any(c.endswith('start_all') for c in body_calls) and any(c.endswith('sleep') for c in body_calls), cx.where('cmdline', tr_), 'cmdline.main:try-coverage')
-        # the saver is joined before its file is exported
-        joins = [n for n in ast.walk(h) if isinstance(n, ast.Call) and isinstance(n.func, ast.Attribute) and n.func.attr == 'join']
-        exports = [n for n in ast.walk(h) if isinstance(n, ast.Call) and isinstance(n.func, ast.Attribute) and n.func.attr == 'export_audio']
+        # the saver is joined before its file is exported (order of the calls with the module's helpers expanded in place)
+        joins = [i for i, n in enumerate(hcalls) if isinstance(n.func, ast.Attribute) and n.func.attr == 'join']
+        exports = [i for i, n in enumerate(hcalls) if isinstance(n.func, ast.Attribute) and n.func.attr == 'export_audio']
         if exports:
-            rep.ob('the saved stream is exported only after its writer thread was joined', bool(joins) and min(j.lineno for j in joins) < min(e.lineno for e in exports), cx.where('cmdline', h), 'cmdline.main:join-before-export')
+            rep.ob('the saved stream is exported only after its writer thread was joined', bool(joins) and min(joins) < min(exports), cx.where('cmdline', h), 'cmdline.main:join-before-export')
     # ---------------------------------------------------------------- T7 on end-of-stream the tokenizer flushes the open event: the detections are those of the prefix read
     d = feed(rep, repo, 'C04', 'c04')
     rep.explanation = ('Decided by path enumeration: the stop poll uses get_nowait on the worker\'s own inbox, truthy exactly for a queued stop marker; TokenizerWorker.read polls on every call, and on a stop returns None '
